@@ -1,6 +1,1279 @@
-//! C10 — not built yet.
-use crate::core::Ctx;
+//! C10 — rounding to integers / to fewer digits picks the mathematically right neighbour.
+//!
+//! Sweeps (all exhaustive walks over indexable universes, nothing sampled):
+//! * `float.closed.B*`  every value of F(B,P,E) wrapped with every precision variant, all six modes:
+//!   trunc floor ceil round fract split_at_point (FBig), to_int (FBig in the mode, Repr), and
+//!   with_precision to every target precision 0..=P+1
+//! * `float.shape.B*`   constructed multi-word values around the radix point (halves, half+-1 unit,
+//!   all-(B-1) fractions, leading zeros on both sides of the `smaller_than_one` / `round` shortcuts)
+//! * `rat.closed`, `rat.shape`  RBig / Relaxed trunc floor ceil round fract split_at_point
+//! * `prim.fract.B*`, `prim.fract.shape.B*`  Round::round_fract::<B>(int, fract, k), six modes
+//! * `prim.ratio`, `prim.ratio.shape`        Round::round_ratio(int, num, den), six modes
+//!
+//! Oracle: the definitions on exact rationals (num_bigint): trunc/floor/ceil, round = nearest with
+//! ties away from zero, fract = x - trunc(x), the six modes as "the integer the mode names"
+//! (`round_int`), rounding to p digits = round_int on x / B^(floor_log(x) - p + 1).
+
+use crate::core::{guard, is_internal_panic, Ctx, Rec};
+use crate::fref::*;
+use crate::h::unflatten;
+use crate::uni::*;
+use dashu_base::Approximation;
+use dashu_float::round::{mode, Round, Rounding};
+use dashu_float::{Context, FBig, Repr};
+use dashu_int::{IBig, Word};
+use dashu_ratio::{RBig, Relaxed};
+use num_bigint::{BigInt, BigUint};
+use num_integer::Integer;
+use num_traits::{One, Signed, ToPrimitive, Zero};
+use std::cmp::Ordering;
+
+const P: &str = "C10";
+
+// ---------------------------------------------------------------------------------------------
+// reference: the definitions
+
+/// the integer that rounding mode `m` names for the exact value x
+fn round_int(x: &Rat, m: Mode) -> BigInt {
+    match m {
+        Mode::Zero => x.trunc(),
+        Mode::Away => {
+            if x.is_neg() {
+                x.floor()
+            } else {
+                x.ceil()
+            }
+        }
+        Mode::Up => x.ceil(),
+        Mode::Down => x.floor(),
+        Mode::HalfEven | Mode::HalfAway => {
+            let fl = x.floor();
+            let fr = x.sub(&Rat::int(fl.clone())); // in [0, 1)
+            match cmp_half(&fr) {
+                Ordering::Less => fl,
+                Ordering::Greater => fl + 1,
+                Ordering::Equal => {
+                    if m == Mode::HalfEven {
+                        if fl.is_even() {
+                            fl
+                        } else {
+                            fl + 1
+                        }
+                    } else if x.is_neg() {
+                        fl
+                    } else {
+                        fl + 1
+                    }
+                }
+            }
+        }
+    }
+}
+
+/// second, search-style statement of the same definitions on machine integers (self-check only):
+/// scan the integers around n/d and pick the one the definition of the mode names
+fn round_int_search(n: i64, d: i64, m: Mode) -> i64 {
+    assert!(d > 0);
+    let approx = n / d;
+    let cands: Vec<i64> = (approx - 2..=approx + 2).collect();
+    // c ? n/d  <=>  c*d ? n
+    let le = |c: i64| c * d <= n;
+    let ge = |c: i64| c * d >= n;
+    let dist = |c: i64| (c * d - n).abs(); // |c - x| * d
+    match m {
+        Mode::Down => *cands.iter().filter(|&&c| le(c)).max().unwrap(),
+        Mode::Up => *cands.iter().filter(|&&c| ge(c)).min().unwrap(),
+        // the integer of largest magnitude that is not beyond x (seen from zero)
+        Mode::Zero => *cands.iter().filter(|&&c| c.abs() * d <= n.abs() && (c == 0 || (c > 0) == (n > 0))).max_by_key(|c| c.abs()).unwrap(),
+        // the integer of smallest magnitude that is not before x (seen from zero)
+        Mode::Away => {
+            if n == 0 {
+                0
+            } else {
+                *cands.iter().filter(|&&c| c != 0 && (c > 0) == (n > 0) && c.abs() * d >= n.abs()).min_by_key(|c| c.abs()).unwrap()
+            }
+        }
+        Mode::HalfEven | Mode::HalfAway => {
+            let best = cands.iter().map(|&c| dist(c)).min().unwrap();
+            let near: Vec<i64> = cands.iter().copied().filter(|&c| dist(c) == best).collect();
+            if near.len() == 1 {
+                near[0]
+            } else if m == Mode::HalfEven {
+                *near.iter().find(|c| *c % 2 == 0).unwrap()
+            } else {
+                *near.iter().max_by_key(|c| c.abs()).unwrap()
+            }
+        }
+    }
+}
+
+/// x rounded to p significant base-B digits in mode m: (value, adjustment relative to the truncated
+/// significand, position of the dropped part relative to one half: Less / Equal / Greater)
+fn round_digits(x: &Rat, base: u32, p: usize, m: Mode) -> (Rat, i32, Ordering) {
+    assert!(p > 0 && !x.is_zero());
+    let q = x.floor_log(base) - p as i64 + 1;
+    let unit = Rat::scaled(&BigInt::one(), base, q);
+    let scaled = x.div(&unit);
+    let r = round_int(&scaled, m);
+    let t = scaled.trunc();
+    let adj = (&r - &t).to_i32().unwrap();
+    let low = scaled.sub(&Rat::int(t)).abs();
+    let half = cmp_half(&low);
+    (Rat::int(r).mul(&unit), adj, half)
+}
+
+/// 0, 1, -1, 2, -2, ...: index order = simplest first, so that the reported example of a signature is the simplest one
+fn zigzag(i: usize) -> i64 {
+    let h = ((i + 1) / 2) as i64;
+    if i % 2 == 1 {
+        h
+    } else {
+        -h
+    }
+}
+
+/// |r| ? 1/2 for a non-negative fraction r
+fn cmp_half(r: &Rat) -> Ordering {
+    (&r.n * BigInt::from(2)).cmp(&r.d)
+}
+
+fn adj_i(r: Rounding) -> i32 {
+    match r {
+        Rounding::NoOp => 0,
+        Rounding::AddOne => 1,
+        Rounding::SubOne => -1,
+    }
+}
+fn adj_name(a: i32) -> &'static str {
+    match a {
+        0 => "NoOp",
+        1 => "AddOne",
+        -1 => "SubOne",
+        _ => "<not an adjustment>",
+    }
+}
+
+macro_rules! mode_cls {
+    ($pre:literal, $m:expr, $suf:literal) => {
+        match $m {
+            Mode::Zero => concat!($pre, "Zero", $suf),
+            Mode::Away => concat!($pre, "Away", $suf),
+            Mode::Up => concat!($pre, "Up", $suf),
+            Mode::Down => concat!($pre, "Down", $suf),
+            Mode::HalfEven => concat!($pre, "HalfEven", $suf),
+            Mode::HalfAway => concat!($pre, "HalfAway", $suf),
+        }
+    };
+}
+macro_rules! mode_adj_cls {
+    ($pre:literal, $m:expr, $a:expr) => {
+        match $a {
+            0 => mode_cls!($pre, $m, ":NoOp"),
+            1 => mode_cls!($pre, $m, ":AddOne"),
+            _ => mode_cls!($pre, $m, ":SubOne"),
+        }
+    };
+}
+
+/// adjustments an inexact rounding can produce in each mode (vacuity guards)
+fn adjs_of(m: Mode) -> &'static [i32] {
+    match m {
+        Mode::Zero => &[0],
+        Mode::Away => &[1, -1],
+        Mode::Up => &[1, 0],
+        Mode::Down => &[-1, 0],
+        _ => &[1, -1, 0],
+    }
+}
+
+fn half_name(o: Ordering) -> &'static str {
+    match o {
+        Ordering::Less => "below-half",
+        Ordering::Equal => "tie",
+        Ordering::Greater => "above-half",
+    }
+}
+
+fn num(x: &BigInt) -> String {
+    if x.bits() <= 64 {
+        x.to_string()
+    } else {
+        hex(x)
+    }
+}
+
+fn panic_kind(msg: &str) -> &'static str {
+    if is_internal_panic(msg) {
+        "internal-panic"
+    } else {
+        "panic"
+    }
+}
+
+// ---------------------------------------------------------------------------------------------
+// float values with their expected roundings
+
+struct FV<const B: Word> {
+    s: BigInt, // normalised: not divisible by B (or zero)
+    e: i64,
+    d: usize, // digits of s
+    x: Rat,
+    repr: Repr<B>,
+    tr: BigInt,
+    fl: BigInt,
+    ce: BigInt,
+    rd: BigInt, // nearest, ties away from zero
+    fr: Rat,    // x - trunc(x)
+    zone: &'static str,
+    rd_half: Ordering, // |fract| ? 1/2
+}
+
+fn fv<const B: Word>(s: &BigInt, e: i64) -> FV<B> {
+    let base = B as u32;
+    let (mut s, mut e) = (s.clone(), e);
+    if s.is_zero() {
+        e = 0;
+    } else {
+        let b = BigInt::from(base);
+        while (&s % &b).is_zero() {
+            s /= &b;
+            e += 1;
+        }
+    }
+    let d = digits_b(&s, base);
+    let x = Rat::scaled(&s, base, e);
+    let tr = x.trunc();
+    let fr = x.sub(&Rat::int(tr.clone()));
+    let k = e + d as i64; // |x| in [B^(k-1), B^k)
+    let zone = if e >= 0 {
+        "integer"
+    } else if k >= 1 {
+        "mixed"
+    } else {
+        match k {
+            0 => "frac:k=0",
+            -1 => "frac:k=-1",
+            -2 => "frac:k=-2",
+            _ => "frac:k<=-3",
+        }
+    };
+    let fa = fr.abs();
+    FV { repr: mk_repr::<B>(&s, e), fl: x.floor(), ce: x.ceil(), rd: round_int(&x, Mode::HalfAway), rd_half: cmp_half(&fa), tr, fr, zone, x, d, s, e }
+}
+
+/// precision variants a value of d digits is wrapped with; the over-long one (precision < digits)
+/// can only be built through `FBig::from_repr` in a build without debug assertions
+const PV_NAMES: [&str; 5] = ["p=d", "p=d+1", "p=d+3", "unlimited", "overlong"];
+fn pv_count() -> u64 {
+    if cfg!(debug_assertions) {
+        4
+    } else {
+        5
+    }
+}
+fn pv_prec(d: usize, pv: usize) -> Option<usize> {
+    match pv {
+        0 => Some(d.max(1)),
+        1 => Some(d + 1),
+        2 => Some(d + 3),
+        3 => Some(0),
+        _ => {
+            if d >= 2 {
+                Some(d - 1)
+            } else {
+                None
+            }
+        }
+    }
+}
+
+fn f_show<const B: Word>(v: &FV<B>) -> String {
+    format!("{}*{}^{}", num(&v.s), B, v.e)
+}
+
+/// compare a float result with the exact expected value
+#[allow(clippy::too_many_arguments)]
+fn chk_f<R: ModeTag, const B: Word>(rec: &mut Rec, site: &str, class: &str, got: Result<FBig<R, B>, String>, want: &Rat, case: &dyn Fn() -> String) -> Option<FBig<R, B>> {
+    rec.step();
+    match got {
+        Ok(r) => {
+            if r.repr().is_infinite() {
+                rec.fail(format!("{}|{}|infinite-result|{}", P, site, class), case(), "infinite", want.show());
+                return None;
+            }
+            let rv = fval(r.repr());
+            if &rv.rat() != want {
+                rec.fail(format!("{}|{}|wrong-value|{}", P, site, class), case(), rv.show(), want.show());
+                return None;
+            }
+            Some(r)
+        }
+        Err(pm) => {
+            rec.fail(format!("{}|{}|{}|{}", P, site, panic_kind(&pm), class), case(), format!("panic: {}", pm), want.show());
+            None
+        }
+    }
+}
+
+/// the six-mode independent part + to_int + with_precision of one (value, precision, mode)
+fn float_mode_case<R: ModeTag, const B: Word>(rec: &mut Rec, v: &FV<B>, pv: usize, prec: usize, targets: &[usize]) {
+    let m = R::MODE;
+    let pvn = PV_NAMES[pv];
+    let a: FBig<R, B> = match guard(|| FBig::<R, B>::from_repr(v.repr.clone(), Context::<R>::new(prec))) {
+        Ok(a) => a,
+        Err(pm) => {
+            rec.step();
+            rec.fail(format!("{}|FBig::from_repr|{}|B{},{}", P, panic_kind(&pm), B, pvn), format!("from_repr({}, precision {})", f_show(v), prec), format!("panic: {}", pm), "a float (digits <= precision)");
+            return;
+        }
+    };
+    // signature classes: magnitude zone (the two deepest zones merged), precision variant, and for the
+    // mode-dependent calls the mode; the base is in the case text only (one root cause = a handful of signatures)
+    let szone = if v.zone == "frac:k=-2" || v.zone == "frac:k<=-3" { "frac:k<=-2" } else { v.zone };
+    let cls = format!("{},{}", szone, pvn);
+    let cls = cls.as_str();
+    let desc = |op: &'static str| move || format!("base {} mode {}: FBig({}, precision {}).{}", B, m.name(), f_show(v), prec, op);
+    let int_rat = |i: &BigInt| Rat::int(i.clone());
+
+    // --- integer-valued roundings (independent of the mode of the type)
+    let t = chk_f::<R, B>(rec, "FBig::trunc", cls, guard(|| a.trunc()), &int_rat(&v.tr), &desc("trunc()"));
+    let fl = chk_f::<R, B>(rec, "FBig::floor", cls, guard(|| a.floor()), &int_rat(&v.fl), &desc("floor()"));
+    let ce = chk_f::<R, B>(rec, "FBig::ceil", cls, guard(|| a.ceil()), &int_rat(&v.ce), &desc("ceil()"));
+    let rd = chk_f::<R, B>(rec, "FBig::round", cls, guard(|| a.round()), &int_rat(&v.rd), &desc("round()"));
+    let f = chk_f::<R, B>(rec, "FBig::fract", cls, guard(|| a.fract()), &v.fr, &desc("fract()"));
+    // trunc(x) + fract(x) = x on the values actually returned
+    if let (Some(t), Some(f)) = (&t, &f) {
+        rec.step();
+        let sum = fval(t.repr()).rat().add(&fval(f.repr()).rat());
+        if sum != v.x {
+            rec.fail(format!("{}|FBig::trunc+fract|identity-broken|{}", P, cls), desc("trunc() + fract()")(), sum.show(), v.x.show());
+        }
+    }
+    // documented precision of the integer results (FBig::round, section Precision): not part of
+    // the property statement, so only counted
+    let doc_prec = if v.e >= 0 { prec } else { prec.saturating_sub((-v.e) as usize) };
+    for r in [&t, &fl, &ce, &rd].into_iter().flatten() {
+        rec.hit(if r.precision() == doc_prec { "result-precision:as-documented" } else { "unspecified:result-precision-differs-from-doc-rule(not judged)" });
+    }
+    // split_at_point = (trunc, fract)
+    rec.step();
+    match guard(|| a.clone().split_at_point()) {
+        Ok((st, sf)) => {
+            if st.repr().is_infinite() || sf.repr().is_infinite() {
+                rec.fail(format!("{}|FBig::split_at_point|infinite-result|{}", P, cls), desc("split_at_point()")(), "infinite", format!("({}, {})", v.tr, v.fr.show()));
+            } else {
+                let (gt, gf) = (fval(st.repr()), fval(sf.repr()));
+                if gt.rat() != int_rat(&v.tr) || gf.rat() != v.fr {
+                    rec.fail(format!("{}|FBig::split_at_point|wrong-value|{}", P, cls), desc("split_at_point()")(), format!("({}, {})", gt.show(), gf.show()), format!("({}, {})", v.tr, v.fr.show()));
+                }
+            }
+        }
+        Err(pm) => rec.fail(format!("{}|FBig::split_at_point|{}|{}", P, panic_kind(&pm), cls), desc("split_at_point()")(), format!("panic: {}", pm), format!("({}, {})", v.tr, v.fr.show())),
+    }
+
+    // --- to_int in the mode of the type
+    let mcls = format!("{},{},{}", m.name(), szone, pvn);
+    let mcls = mcls.as_str();
+    rec.step();
+    let want = round_int(&v.x, m);
+    let want_adj = (&want - &v.tr).to_i32().unwrap();
+    // outcome classes are those of the expected answer (the designed case), whatever dashu answers
+    if v.e >= 0 {
+        rec.hit("to_int:exact");
+    } else {
+        rec.hit(mode_adj_cls!("to_int:", m, want_adj));
+        if v.rd_half == Ordering::Equal && m.is_half() {
+            rec.hit(mode_cls!("to_int:", m, ":tie"));
+        }
+    }
+    match guard(|| a.to_int()) {
+        Ok(ap) => {
+            let (val, flag) = match ap {
+                Approximation::Exact(i) => (i, None),
+                Approximation::Inexact(i, r) => (i, Some(r)),
+            };
+            let got = i_to_ref(&val);
+            let expected = || if v.e >= 0 { format!("Exact({})", want) } else { format!("Inexact({}, {})", want, adj_name(want_adj)) };
+            if got != want {
+                rec.fail(format!("{}|FBig::to_int|wrong-value|{}", P, mcls), desc("to_int()")(), format!("{} flag {:?}", got, flag), expected());
+            } else {
+                match (flag, v.e >= 0) {
+                    (None, true) => {}
+                    (None, false) => rec.fail(format!("{}|FBig::to_int|wrong-flag|exact-but-inexact,{}", P, mcls), desc("to_int()")(), format!("Exact({})", got), expected()),
+                    (Some(r), true) => rec.fail(format!("{}|FBig::to_int|wrong-flag|inexact-but-exact,{}", P, mcls), desc("to_int()")(), format!("Inexact({}, {:?})", got, r), expected()),
+                    (Some(r), false) => {
+                        if adj_i(r) != want_adj {
+                            rec.fail(format!("{}|FBig::to_int|wrong-flag|adjustment,{}", P, mcls), desc("to_int()")(), format!("Inexact({}, {:?})", got, r), expected());
+                        }
+                    }
+                }
+            }
+        }
+        Err(pm) => rec.fail(format!("{}|FBig::to_int|{}|{}", P, panic_kind(&pm), cls), desc("to_int()")(), format!("panic: {}", pm), format!("{}", want)),
+    }
+
+    // --- with_precision to every target
+    for &t in targets {
+        if prec != 0 && prec < v.d && t >= prec {
+            // over-long source (only in builds without debug assertions) and a target that is not below
+            // the source precision: the documentation promises rounding only for a smaller target
+            rec.hit("unspecified:overlong-source,target>=source-precision(not judged)");
+            continue;
+        }
+        rec.step();
+        let rounds = t != 0 && v.d > t;
+        let (want_val, want_adj, half) = if rounds { round_digits(&v.x, B as u32, t, m) } else { (v.x.clone(), 0, Ordering::Less) };
+        let from = if prec == 0 { "from-unlimited" } else if prec < v.d { "from-overlong" } else { "from-limited" };
+        let wcls = format!("{},{},{}", m.name(), if rounds { half_name(half) } else { "nothing-to-round" }, from);
+        let wcls = wcls.as_str();
+        let wdesc = || format!("base {} mode {}: FBig({}, precision {}).with_precision({})", B, m.name(), f_show(v), prec, t);
+        let expected = || if rounds { format!("Inexact({}, {})", want_val.show(), adj_name(want_adj)) } else { format!("Exact({})", want_val.show()) };
+        if rounds {
+            rec.hit(mode_adj_cls!("wp:", m, want_adj));
+            if half == Ordering::Equal && m.is_half() {
+                rec.hit(mode_cls!("wp:", m, ":tie"));
+            }
+            if want_adj != 0 && want_val.floor_log(B as u32) != v.x.floor_log(B as u32) {
+                rec.hit("wp:carry-into-new-digit");
+            }
+            if prec == 0 {
+                rec.hit("wp:rounded-from-unlimited");
+            }
+        } else {
+            rec.hit("wp:kept-exact");
+        }
+        match guard(|| a.clone().with_precision(t)) {
+            Ok(ap) => {
+                let flag = flag_of(&ap);
+                let r = match ap {
+                    Approximation::Exact(r) => r,
+                    Approximation::Inexact(r, _) => r,
+                };
+                if r.repr().is_infinite() {
+                    rec.fail(format!("{}|FBig::with_precision|infinite-result|{}", P, wcls), wdesc(), "infinite", expected());
+                    continue;
+                }
+                let rv = fval(r.repr());
+                if rv.rat() != want_val {
+                    if rounds && rv.rat() == v.x {
+                        // returned unchanged although digits had to be dropped: one class whatever the mode
+                        rec.fail(format!("{}|FBig::with_precision|not-rounded|{}", P, from), wdesc(), format!("{} flag {:?} ({} digits kept)", rv.show(), flag, rv.digits()), expected());
+                    } else {
+                        rec.fail(format!("{}|FBig::with_precision|wrong-value|{}", P, wcls), wdesc(), format!("{} flag {:?}", rv.show(), flag), expected());
+                    }
+                    continue;
+                }
+                let flag_ok = match flag {
+                    Flag::Exact => !rounds,
+                    Flag::Inexact(a) => rounds && adj_i(a) == want_adj,
+                };
+                if !flag_ok {
+                    rec.fail(format!("{}|FBig::with_precision|wrong-flag|{}", P, wcls), wdesc(), format!("{} flag {:?}", rv.show(), flag), expected());
+                    continue;
+                }
+                if r.precision() != t {
+                    rec.fail(format!("{}|FBig::with_precision|result-precision|B{}", P, B), wdesc(), format!("result carries precision {}", r.precision()), format!("{}", t));
+                }
+                // the exact oracle must lie inside the shared rounding contract (consistency of the two oracles)
+                if judge(&v.x, &rv, flag, t, m).is_err() {
+                    rec.hit("machinery:exact-oracle-outside-the-shared-contract");
+                }
+            }
+            Err(pm) => rec.fail(format!("{}|FBig::with_precision|{}|{}", P, panic_kind(&pm), from), wdesc(), format!("panic: {}", pm), expected()),
+        }
+    }
+}
+
+/// one (value, precision variant): Repr::to_int once, then everything in all six modes
+fn float_case<const B: Word>(rec: &mut Rec, v: &FV<B>, pv: usize, targets: &[usize]) {
+    let prec = match pv_prec(v.d, pv) {
+        Some(p) => p,
+        None => {
+            rec.hit("skipped:no-overlong-variant-for-one-digit");
+            return;
+        }
+    };
+    if pv == 0 {
+        // Repr::to_int: "the fractional part is always rounded to zero"
+        rec.step();
+        let cls = (if v.zone == "frac:k=-2" || v.zone == "frac:k<=-3" { "frac:k<=-2" } else { v.zone }).to_string();
+        let case = || format!("Repr::<{}>({}).to_int()", B, f_show(v));
+        let expected = || if v.e >= 0 { format!("Exact({})", v.tr) } else { format!("Inexact({}, NoOp)", v.tr) };
+        rec.hit(if v.e >= 0 { "repr.to_int:exact" } else { "repr.to_int:inexact" });
+        match guard(|| v.repr.to_int()) {
+            Ok(ap) => {
+                let (val, flag) = match ap {
+                    Approximation::Exact(i) => (i, None),
+                    Approximation::Inexact(i, r) => (i, Some(r)),
+                };
+                let got = i_to_ref(&val);
+                if got != v.tr {
+                    rec.fail(format!("{}|Repr::to_int|wrong-value|{}", P, cls), case(), format!("{} flag {:?}", got, flag), expected());
+                } else if flag.is_none() != (v.e >= 0) || flag.map_or(false, |r| r != Rounding::NoOp) {
+                    rec.fail(format!("{}|Repr::to_int|wrong-flag|{}", P, cls), case(), format!("{} flag {:?}", got, flag), expected());
+                }
+            }
+            Err(pm) => rec.fail(format!("{}|Repr::to_int|{}|{}", P, panic_kind(&pm), cls), case(), format!("panic: {}", pm), expected()),
+        }
+    }
+    float_mode_case::<mode::Zero, B>(rec, v, pv, prec, targets);
+    float_mode_case::<mode::Away, B>(rec, v, pv, prec, targets);
+    float_mode_case::<mode::Up, B>(rec, v, pv, prec, targets);
+    float_mode_case::<mode::Down, B>(rec, v, pv, prec, targets);
+    float_mode_case::<mode::HalfEven, B>(rec, v, pv, prec, targets);
+    float_mode_case::<mode::HalfAway, B>(rec, v, pv, prec, targets);
+    // classes of the value
+    rec.hit(match v.zone {
+        "integer" => "zone:integer",
+        "mixed" => "zone:mixed",
+        "frac:k=0" => "zone:frac:k=0",
+        "frac:k=-1" => "zone:frac:k=-1",
+        "frac:k=-2" => "zone:frac:k=-2",
+        _ => "zone:frac:k<=-3",
+    });
+    if v.e < 0 {
+        rec.hit(match (v.rd_half, v.x.is_neg()) {
+            (Ordering::Less, false) => "round:below-half:pos",
+            (Ordering::Less, true) => "round:below-half:neg",
+            (Ordering::Equal, false) => "round:tie:pos",
+            (Ordering::Equal, true) => "round:tie:neg",
+            (Ordering::Greater, false) => "round:above-half:pos",
+            (Ordering::Greater, true) => "round:above-half:neg",
+        });
+        if v.d == 1 && prec == 1 {
+            rec.hit("precision-1");
+        }
+        if v.e + (v.d as i64) < 0 && ((-(v.e + v.d as i64)) as usize) > prec && prec != 0 {
+            rec.hit("more-leading-zeros-than-precision");
+        }
+    }
+    if !v.s.is_zero() {
+        rec.nontrivial();
+    }
+    rec.sample(|| format!("base {}: {} wrapped with precision {} ({}): trunc floor ceil round fract split to_int with_precision{:?}, six modes", B, f_show(v), prec, PV_NAMES[pv], targets));
+}
+
+fn float_required(even_base: bool) -> Vec<&'static str> {
+    let mut req = vec![
+        "zone:integer", "zone:mixed", "zone:frac:k=0", "zone:frac:k=-1", "zone:frac:k=-2", "zone:frac:k<=-3",
+        "round:below-half:pos", "round:below-half:neg", "round:above-half:pos", "round:above-half:neg",
+        "to_int:exact", "repr.to_int:exact", "repr.to_int:inexact", "wp:kept-exact", "wp:carry-into-new-digit", "wp:rounded-from-unlimited",
+        "precision-1", "more-leading-zeros-than-precision",
+    ];
+    if even_base {
+        req.extend(["round:tie:pos", "round:tie:neg"]);
+    }
+    for m in MODES {
+        for &a in adjs_of(m) {
+            req.push(mode_adj_cls!("to_int:", m, a));
+            req.push(mode_adj_cls!("wp:", m, a));
+        }
+        if even_base && m.is_half() {
+            req.push(mode_cls!("to_int:", m, ":tie"));
+            req.push(mode_cls!("wp:", m, ":tie"));
+        }
+    }
+    req
+}
+
+fn check_machinery_class(ctx: &mut Ctx, name: &str) {
+    let n: u64 = ctx.sweeps.iter().find(|s| s.name == name).map_or(0, |s| s.classes.iter().filter(|(k, _)| k.starts_with("machinery:")).map(|(_, v)| *v).sum());
+    if n != 0 {
+        ctx.machinery(format!("sweep {}: {} results accepted by the exact oracle lie outside the shared rounding contract (oracle inconsistency)", name, n));
+    }
+}
+
+fn float_closed<const B: Word>(ctx: &mut Ctx, p: u32, e: i64) {
+    let vals: Vec<FV<B>> = f_universe(B as u32, p, e).iter().map(|(s, e)| fv::<B>(s, *e)).collect();
+    let targets: Vec<usize> = (0..=(p as usize + 1)).collect();
+    let (nv, np) = (vals.len() as u64, pv_count());
+    let name = format!("float.closed.B{}", B);
+    ctx.sweep(&name, nv * np, |i, rec| {
+        let [iv, pv] = unflatten(i, [nv, np]);
+        float_case::<B>(rec, &vals[iv], pv, &targets);
+    });
+    ctx.require_classes(&name, &float_required(B % 2 == 0));
+    check_machinery_class(ctx, &name);
+    ctx.bound(&format!("F({},P,E)", B), serde_json::json!({"P": p, "E": e, "distinct_values": nv, "precision_variants": &PV_NAMES[..np as usize], "with_precision_targets": targets}));
+}
+
+// ---------------------------------------------------------------------------------------------
+// constructed (shape) values
+
+fn lcg_mag(bits: u64) -> BigUint {
+    let words = (bits as usize + 63) / 64 + 1;
+    shape(words, "lcgA", 0)
+}
+
+/// interesting fractions f with 0 < f < m: next to 0, next to m, around m/2
+fn around_half(m: &BigInt) -> Vec<BigInt> {
+    let h: BigInt = m / BigInt::from(2); // floor
+    let mut v = vec![BigInt::one(), BigInt::from(2), &h - 1, h.clone(), &h + 1, m - 2, m - 1];
+    v.retain(|f| f.is_positive() && f < m);
+    v.sort();
+    v.dedup();
+    v
+}
+
+fn shape_ks(quick: bool) -> Vec<u64> {
+    if quick {
+        vec![1, 2, 3, 19, 20, 64, 65]
+    } else {
+        vec![1, 2, 3, 4, 9, 10, 18, 19, 20, 21, 38, 39, 63, 64, 65, 66, 127, 128, 129, 200]
+    }
+}
+
+fn shape_ints(base: u32) -> Vec<BigInt> {
+    let b = |k: u64| pow_b(base, k);
+    let two = |k: u64| BigInt::from(pow2(k));
+    let mut v = vec![BigInt::zero(), BigInt::one(), BigInt::from(2), BigInt::from(3), BigInt::from(base - 1), BigInt::from(base), b(19) - 1, b(19), b(20) + 1, two(64) - 1, two(64), two(64) + 1, two(128) - 1, two(128) + 1];
+    v.sort();
+    v.dedup();
+    v
+}
+
+fn float_shape_values<const B: Word>(quick: bool) -> Vec<FV<B>> {
+    let base = B as u32;
+    let mut out: Vec<(BigInt, i64)> = vec![];
+    let ints = shape_ints(base);
+    for k in shape_ks(quick) {
+        let bk = pow_b(base, k);
+        let mut fs = around_half(&bk);
+        fs.push(pow_b(base, k - 1));
+        let l = BigInt::from(lcg_mag(bk.bits())) % &bk;
+        if l.is_positive() {
+            fs.push(l);
+        }
+        fs.sort();
+        fs.dedup();
+        for f in &fs {
+            for ip in &ints {
+                let s = ip * &bk + f;
+                out.push((s.clone(), -(k as i64)));
+                out.push((-s, -(k as i64)));
+            }
+            // leading zeros after the radix point: both sides of the shortcuts for "certainly < 1" / "certainly < 1/2"
+            for z in 1..=4i64 {
+                out.push((f.clone(), -(k as i64) - z));
+                out.push((-f.clone(), -(k as i64) - z));
+            }
+        }
+    }
+    // integers with a positive exponent and zero
+    out.push((BigInt::zero(), 0));
+    for ip in &ints {
+        out.push((ip.clone(), 3));
+        out.push((-ip.clone(), 1));
+    }
+    let mut vals: Vec<FV<B>> = out.iter().map(|(s, e)| fv::<B>(s, *e)).collect();
+    // distinct values only
+    vals.sort_by(|a, b| (a.e, &a.s).cmp(&(b.e, &b.s)));
+    vals.dedup_by(|a, b| a.e == b.e && a.s == b.s);
+    vals
+}
+
+fn shape_targets(d: usize, e: i64) -> Vec<usize> {
+    let int_digits = d as i64 + e; // digits in front of the radix point
+    let mut t: Vec<i64> = vec![0, 1, 2, 3, 19, 20, 21, d as i64 - 1, d as i64, d as i64 + 1, d as i64 / 2, int_digits - 1, int_digits, int_digits + 1];
+    t.retain(|&x| x >= 0);
+    t.sort();
+    t.dedup();
+    t.into_iter().map(|x| x as usize).collect()
+}
+
+fn float_shape<const B: Word>(ctx: &mut Ctx) {
+    let vals = float_shape_values::<B>(ctx.quick());
+    let (nv, np) = (vals.len() as u64, pv_count());
+    let name = format!("float.shape.B{}", B);
+    ctx.sweep(&name, nv * np, |i, rec| {
+        let [iv, pv] = unflatten(i, [nv, np]);
+        let v = &vals[iv];
+        let targets = shape_targets(v.d, v.e);
+        float_case::<B>(rec, v, pv, &targets);
+        rec.hit(match v.s.bits() {
+            0..=64 => "significand:<=64bit",
+            65..=128 => "significand:65-128bit",
+            _ => "significand:>128bit",
+        });
+    });
+    let mut req = float_required(B % 2 == 0);
+    req.retain(|c| *c != "precision-1");
+    req.extend(["significand:<=64bit", "significand:65-128bit", "significand:>128bit"]);
+    ctx.require_classes(&name, &req);
+    check_machinery_class(ctx, &name);
+    ctx.bound(&format!("float.shape.B{}", B), serde_json::json!({"fraction_digit_counts_k": shape_ks(ctx.quick()), "distinct_values": nv, "largest_significand_bits": vals.iter().map(|v| v.s.bits()).max().unwrap_or(0)}));
+}
+
+// ---------------------------------------------------------------------------------------------
+// rationals
+
+trait RatLike: Sized + Clone {
+    const NAME: &'static str;
+    const CANONICAL: bool;
+    fn mk(n: &BigInt, d: &BigInt) -> Self;
+    fn parts(&self) -> (BigInt, BigInt);
+    fn ints(&self) -> [Result<IBig, String>; 4]; // trunc floor ceil round
+    fn fr(&self) -> Result<Self, String>;
+    fn split(self) -> Result<(IBig, Self), String>;
+}
+
+macro_rules! impl_ratlike {
+    ($T:ty, $name:expr, $canon:expr) => {
+        impl RatLike for $T {
+            const NAME: &'static str = $name;
+            const CANONICAL: bool = $canon;
+            fn mk(n: &BigInt, d: &BigInt) -> Self {
+                <$T>::from_parts(ref_to_i(n), ref_to_u(d.magnitude()))
+            }
+            fn parts(&self) -> (BigInt, BigInt) {
+                (i_to_ref(self.numerator()), BigInt::from(u_to_ref(self.denominator())))
+            }
+            fn ints(&self) -> [Result<IBig, String>; 4] {
+                [guard(|| self.trunc()), guard(|| self.floor()), guard(|| self.ceil()), guard(|| self.round())]
+            }
+            fn fr(&self) -> Result<Self, String> {
+                guard(|| self.fract())
+            }
+            fn split(self) -> Result<(IBig, Self), String> {
+                guard(|| self.split_at_point())
+            }
+        }
+    };
+}
+impl_ratlike!(RBig, "RBig", true);
+impl_ratlike!(Relaxed, "Relaxed", false);
+
+/// judge a fractional-part result: value, and for RBig also canonical form
+fn chk_fract<T: RatLike>(rec: &mut Rec, site: &str, cls: &str, got: &T, want: &Rat, case: &dyn Fn() -> String) {
+    let (gn, gd) = got.parts();
+    if gd.is_zero() {
+        rec.fail(format!("{}|{}::{}|zero-denominator|{}", P, T::NAME, site, cls), case(), format!("{}/{}", num(&gn), num(&gd)), want.show());
+        return;
+    }
+    if &Rat::new(gn.clone(), gd.clone()) != want {
+        rec.fail(format!("{}|{}::{}|wrong-value|{}", P, T::NAME, site, cls), case(), format!("{}/{}", num(&gn), num(&gd)), want.show());
+        return;
+    }
+    if T::CANONICAL && (gn != want.n || gd != want.d) {
+        rec.fail(format!("{}|{}::{}|not-canonical|{}", P, T::NAME, site, cls), case(), format!("{}/{}", num(&gn), num(&gd)), want.show());
+    }
+}
+
+/// all six functions on the stored fraction sn/sd (value x)
+fn rat_case<T: RatLike>(rec: &mut Rec, sn: &BigInt, sd: &BigInt, x: &Rat, uni: &str) {
+    let tr = x.trunc();
+    let fr = x.sub(&Rat::int(tr.clone()));
+    let fa = fr.abs();
+    let half = cmp_half(&fa);
+    let kind = if x.is_int() { "integer" } else { half_name(half) };
+    let cls = format!("{},{}{},{}", uni, if x.is_neg() { "neg," } else { "" }, kind, size_class(word_len(sd.magnitude())));
+    let cls = cls.as_str();
+    let a = match guard(|| T::mk(sn, sd)) {
+        Ok(a) => a,
+        Err(pm) => {
+            rec.step();
+            rec.fail(format!("{}|{}::from_parts|{}|{}", P, T::NAME, panic_kind(&pm), cls), format!("{}/{}", num(sn), num(sd)), format!("panic: {}", pm), x.show());
+            return;
+        }
+    };
+    let wants = [tr.clone(), x.floor(), x.ceil(), round_int(x, Mode::HalfAway)];
+    let names = ["trunc", "floor", "ceil", "round"];
+    let got = a.ints();
+    for k in 0..4 {
+        rec.step();
+        let case = || format!("{}({}/{}).{}()", T::NAME, num(sn), num(sd), names[k]);
+        match &got[k] {
+            Ok(g) => {
+                let g = i_to_ref(g);
+                if g != wants[k] {
+                    rec.fail(format!("{}|{}::{}|wrong-value|{}", P, T::NAME, names[k], cls), case(), num(&g), num(&wants[k]));
+                }
+            }
+            Err(pm) => rec.fail(format!("{}|{}::{}|{}|{}", P, T::NAME, names[k], panic_kind(pm), cls), case(), format!("panic: {}", pm), num(&wants[k])),
+        }
+    }
+    rec.step();
+    let fcase = || format!("{}({}/{}).fract()", T::NAME, num(sn), num(sd));
+    let mut fract_val = None;
+    match a.fr() {
+        Ok(f) => {
+            chk_fract::<T>(rec, "fract", cls, &f, &fr, &fcase);
+            let (gn, gd) = f.parts();
+            if !gd.is_zero() {
+                fract_val = Some(Rat::new(gn, gd));
+            }
+        }
+        Err(pm) => rec.fail(format!("{}|{}::fract|{}|{}", P, T::NAME, panic_kind(&pm), cls), fcase(), format!("panic: {}", pm), fr.show()),
+    }
+    // documented guarantee: self == self.trunc() + self.fract(), on the values actually returned
+    if let (Ok(t), Some(f)) = (&got[0], &fract_val) {
+        rec.step();
+        let sum = Rat::int(i_to_ref(t)).add(f);
+        if &sum != x {
+            rec.fail(format!("{}|{}::trunc+fract|identity-broken|{}", P, T::NAME, cls), fcase(), sum.show(), x.show());
+        }
+    }
+    rec.step();
+    let scase = || format!("{}({}/{}).split_at_point()", T::NAME, num(sn), num(sd));
+    match a.split() {
+        Ok((t, f)) => {
+            let t = i_to_ref(&t);
+            if t != tr {
+                rec.fail(format!("{}|{}::split_at_point|wrong-value|{}", P, T::NAME, cls), scase(), format!("integral part {}", num(&t)), num(&tr));
+            }
+            chk_fract::<T>(rec, "split_at_point", cls, &f, &fr, &scase);
+        }
+        Err(pm) => rec.fail(format!("{}|{}::split_at_point|{}|{}", P, T::NAME, panic_kind(&pm), cls), scase(), format!("panic: {}", pm), format!("({}, {})", num(&tr), fr.show())),
+    }
+    // outcome classes
+    if x.is_int() {
+        rec.hit(if x.is_neg() { "rat:integer:neg" } else { "rat:integer:nonneg" });
+    } else {
+        rec.hit(match (half, x.is_neg()) {
+            (Ordering::Less, false) => "rat:below-half:pos",
+            (Ordering::Less, true) => "rat:below-half:neg",
+            (Ordering::Equal, false) => "rat:tie:pos",
+            (Ordering::Equal, true) => "rat:tie:neg",
+            (Ordering::Greater, false) => "rat:above-half:pos",
+            (Ordering::Greater, true) => "rat:above-half:neg",
+        });
+    }
+    if x.abs() < Rat::from_i(1) && !x.is_zero() {
+        rec.hit("rat:magnitude-below-one");
+    }
+}
+
+const RAT_REQ: [&str; 9] = ["rat:integer:neg", "rat:integer:nonneg", "rat:below-half:pos", "rat:below-half:neg", "rat:tie:pos", "rat:tie:neg", "rat:above-half:pos", "rat:above-half:neg", "rat:magnitude-below-one"];
+
+fn rat_closed(ctx: &mut Ctx, nmax: i64, dmax: i64) {
+    // Relaxed additionally with the non-reduced spellings (n*g)/(d*g)
+    let gs: [i64; 3] = [1, 3, 10];
+    let (nn, nd, ng) = ((2 * nmax + 1) as u64, dmax as u64, gs.len() as u64);
+    ctx.sweep("rat.closed", nn * nd * ng, |i, rec| {
+        let [inn, id, ig] = unflatten(i, [nn, nd, ng]);
+        let (n, d, g) = (zigzag(inn), id as i64 + 1, gs[ig]);
+        let x = Rat::new(BigInt::from(n), BigInt::from(d));
+        let (sn, sd) = (BigInt::from(n * g), BigInt::from(d * g));
+        if ig == 0 {
+            rat_case::<RBig>(rec, &sn, &sd, &x, "closed");
+        }
+        rat_case::<Relaxed>(rec, &sn, &sd, &x, "closed");
+        if g != 1 {
+            rec.hit("relaxed:non-reduced-spelling");
+        }
+        if !(x.is_int() && x.n.abs() <= BigInt::one()) {
+            rec.nontrivial();
+        }
+        rec.sample(|| format!("{}/{} (stored {}/{}): trunc floor ceil round fract split_at_point on RBig and Relaxed", n, d, sn, sd));
+    });
+    ctx.require_classes("rat.closed", &RAT_REQ);
+    ctx.require_classes("rat.closed", &["relaxed:non-reduced-spelling"]);
+    ctx.bound("Q(N,D)", serde_json::json!({"N": nmax, "D": dmax, "relaxed_common_factors": gs}));
+}
+
+fn rat_shape(ctx: &mut Ctx) {
+    let quick = ctx.quick();
+    let lens: Vec<usize> = if quick { vec![1, 2, 3, 5] } else { vec![1, 2, 3, 4, 5, 33, 66] };
+    let pats: Vec<&'static str> = vec!["ones", "top1", "top1p1", "alt", "lcgA", "lcgSeed"];
+    let dens: Vec<BigInt> = shapes(&lens, &pats, ctx.seed).into_iter().map(|s| BigInt::from(s.v)).filter(|d| d > &BigInt::one()).collect();
+    let mut qs: Vec<BigInt> = vec![BigInt::zero(), BigInt::one(), BigInt::from(2), BigInt::from(3), BigInt::from(pow2(63)), BigInt::from(pow2(64)) - 1, BigInt::from(pow2(64)), BigInt::from(pow2(128)) - 1, BigInt::from(shape(3, "lcgA", 0))];
+    if !quick {
+        qs.push(BigInt::from(shape(34, "lcgB", 0)));
+        qs.push(BigInt::from(shape(67, "ones", 0)));
+    }
+    let gs: Vec<BigInt> = vec![BigInt::one(), BigInt::from(3), BigInt::from(pow2(64)) + 1];
+    const NR: u64 = 8; // 0 and the <= 7 points of around_half
+    let (nd, nq, ng) = (dens.len() as u64, qs.len() as u64, gs.len() as u64);
+    ctx.sweep("rat.shape", nd * nq * NR * 2 * ng, |i, rec| {
+        let [id, iq, ir, is, ig] = unflatten(i, [nd, nq, NR, 2, ng]);
+        let (d, q, g) = (&dens[id], &qs[iq], &gs[ig]);
+        let mut rs = around_half(d);
+        rs.insert(0, BigInt::zero());
+        if ir >= rs.len() {
+            rec.hit("skipped:fewer-remainders-for-a-small-denominator");
+            return;
+        }
+        let mut n = q * d + &rs[ir];
+        if is == 1 {
+            if n.is_zero() {
+                rec.hit("skipped:minus-zero");
+                return;
+            }
+            n = -n;
+        }
+        let x = Rat::new(n.clone(), d.clone());
+        let (sn, sd) = (&n * g, d * g);
+        if ig == 0 {
+            rat_case::<RBig>(rec, &sn, &sd, &x, "shape");
+        }
+        rat_case::<Relaxed>(rec, &sn, &sd, &x, "shape");
+        rec.hit(size_class(word_len(sd.magnitude())));
+        rec.nontrivial();
+        rec.sample(|| format!("({} * d + {}) / d with d = {}, common factor {}", num(q), num(&rs[ir]), num(d), num(g)));
+    });
+    ctx.require_classes("rat.shape", &RAT_REQ[..8]);
+    ctx.require_classes("rat.shape", &["w1", "w2", "w3-24"]);
+    ctx.bound("rat.shape", serde_json::json!({"denominator_words": lens, "patterns": pats, "quotients": nq, "remainders": "0, 1, 2, d/2-1, d/2, d/2+1, d-2, d-1", "relaxed_common_factors": ["1", "3", "2^64+1"]}));
+}
+
+// ---------------------------------------------------------------------------------------------
+// the two public primitives
+
+fn prim_fract_one<R: ModeTag, const B: Word>(rec: &mut Rec, int: &BigInt, fract: &BigInt, k: usize, v: &Rat, half: Ordering, uni: &str) {
+    let m = R::MODE;
+    rec.step();
+    let want = (round_int(v, m) - int).to_i32().unwrap();
+    let (ii, fi) = (ref_to_i(int), ref_to_i(fract));
+    let case = || format!("{}::round_fract::<{}>({}, {}, {})  [value {}]", m.name(), B, num(int), num(fract), k, v.show());
+    let cls = || format!("{},{},{}", uni, m.name(), if fract.is_zero() { "zero-fraction" } else { half_name(half) });
+    rec.hit(mode_adj_cls!("prim:", m, want));
+    if half == Ordering::Equal && !fract.is_zero() {
+        rec.hit(mode_cls!("prim:", m, ":tie"));
+    }
+    match guard(|| <R as Round>::round_fract::<B>(&ii, fi, k)) {
+        Ok(r) => {
+            if adj_i(r) != want {
+                rec.fail(format!("{}|Round::round_fract|wrong-value|{}", P, cls()), case(), format!("{:?}", r), adj_name(want));
+            }
+        }
+        Err(pm) => rec.fail(format!("{}|Round::round_fract|{}|{}", P, panic_kind(&pm), cls()), case(), format!("panic: {}", pm), adj_name(want)),
+    }
+}
+
+fn prim_fract_case<const B: Word>(rec: &mut Rec, int: &BigInt, fract: &BigInt, k: usize, uni: &str) {
+    let v = Rat::int(int.clone()).add(&Rat::new(fract.clone(), pow_b(B as u32, k as u64)));
+    let fa = Rat::new(fract.abs(), pow_b(B as u32, k as u64));
+    let half = cmp_half(&fa);
+    prim_fract_one::<mode::Zero, B>(rec, int, fract, k, &v, half, uni);
+    prim_fract_one::<mode::Away, B>(rec, int, fract, k, &v, half, uni);
+    prim_fract_one::<mode::Up, B>(rec, int, fract, k, &v, half, uni);
+    prim_fract_one::<mode::Down, B>(rec, int, fract, k, &v, half, uni);
+    prim_fract_one::<mode::HalfEven, B>(rec, int, fract, k, &v, half, uni);
+    prim_fract_one::<mode::HalfAway, B>(rec, int, fract, k, &v, half, uni);
+    rec.hit(match (int.sign(), fract.sign()) {
+        (num_bigint::Sign::NoSign, _) => "prim:int-zero",
+        (_, num_bigint::Sign::NoSign) => "prim:fraction-zero",
+        (a, b) if a == b => "prim:same-signs",
+        _ => "prim:opposite-signs",
+    });
+    if !fract.is_zero() {
+        rec.nontrivial();
+    }
+}
+
+fn prim_required(even_base: bool) -> Vec<&'static str> {
+    let mut req = vec!["prim:int-zero", "prim:fraction-zero", "prim:same-signs", "prim:opposite-signs"];
+    for m in MODES {
+        for a in [0, 1, -1] {
+            // every mode can answer all three: the adjustment is relative to the given integer
+            // part, which may lie on either side of the value — except Up (never SubOne) and Down (never AddOne)
+            if (m == Mode::Up && a == -1) || (m == Mode::Down && a == 1) {
+                continue;
+            }
+            req.push(mode_adj_cls!("prim:", m, a));
+        }
+        if even_base && m.is_half() {
+            req.push(mode_cls!("prim:", m, ":tie"));
+        }
+    }
+    req
+}
+
+fn prim_fract_closed<const B: Word>(ctx: &mut Ctx, imax: i64, kmax: usize) {
+    // index -> (k, int, fract): sizes differ per k, so the index space is the concatenation
+    let mut offs: Vec<(usize, u64, u64)> = vec![]; // (k, first index, fractions)
+    let ni = (2 * imax + 1) as u64;
+    let mut total = 0u64;
+    for k in 1..=kmax {
+        let nf = 2 * (B as u64).pow(k as u32) - 1;
+        offs.push((k, total, nf));
+        total += nf * ni;
+    }
+    let name = format!("prim.fract.B{}", B);
+    ctx.sweep(&name, total, |i, rec| {
+        let &(k, first, nf) = offs.iter().rev().find(|o| o.1 <= i).unwrap();
+        let [ii, fi] = unflatten(i - first, [ni, nf]);
+        let int = BigInt::from(zigzag(ii));
+        let fract = BigInt::from(zigzag(fi));
+        prim_fract_case::<B>(rec, &int, &fract, k, "closed");
+        rec.sample(|| format!("round_fract::<{}>({}, {}, {}) in six modes", B, int, fract, k));
+    });
+    ctx.require_classes(&name, &prim_required(B % 2 == 0));
+    ctx.bound(&format!("prim.fract.B{}", B), serde_json::json!({"int": format!("-{}..={}", imax, imax), "k": format!("1..={}", kmax), "fract": "every integer in (-B^k, B^k)"}));
+}
+
+fn prim_fract_shape<const B: Word>(ctx: &mut Ctx) {
+    let ks = shape_ks(ctx.quick());
+    let mut ints: Vec<BigInt> = vec![];
+    for i in shape_ints(B as u32) {
+        if !i.is_zero() {
+            ints.push(-i.clone());
+        }
+        ints.push(i);
+    }
+    // per k the list of signed fractions
+    let mut cases: Vec<(usize, BigInt)> = vec![];
+    for &k in &ks {
+        let bk = pow_b(B as u32, k);
+        let mut fs = around_half(&bk);
+        fs.push(pow_b(B as u32, k - 1));
+        let l = BigInt::from(lcg_mag(bk.bits())) % &bk;
+        if l.is_positive() {
+            fs.push(l);
+        }
+        fs.sort();
+        fs.dedup();
+        cases.push((k as usize, BigInt::zero()));
+        for f in fs {
+            cases.push((k as usize, -f.clone()));
+            cases.push((k as usize, f));
+        }
+    }
+    let (nc, ni) = (cases.len() as u64, ints.len() as u64);
+    let name = format!("prim.fract.shape.B{}", B);
+    ctx.sweep(&name, nc * ni, |i, rec| {
+        let [ic, ii] = unflatten(i, [nc, ni]);
+        let (k, f) = &cases[ic];
+        prim_fract_case::<B>(rec, &ints[ii], f, *k, "shape");
+        rec.sample(|| format!("round_fract::<{}>({}, {}, {}) in six modes", B, num(&ints[ii]), num(f), k));
+    });
+    ctx.require_classes(&name, &prim_required(B % 2 == 0));
+}
+
+fn prim_ratio_one<R: ModeTag>(rec: &mut Rec, int: &BigInt, n: &BigInt, d: &BigInt, v: &Rat, half: Ordering, uni: &str) {
+    let m = R::MODE;
+    rec.step();
+    let (ii, ni, di) = (ref_to_i(int), ref_to_i(n), ref_to_i(d));
+    let case = || format!("{}::round_ratio({}, {}, {})  [value {}]", m.name(), num(int), num(n), num(d), v.show());
+    let got = guard(|| <R as Round>::round_ratio(&ii, ni, &di));
+    if n.magnitude() == d.magnitude() {
+        // documented assumption |num/den| < 1 is not met (the code only asserts <=): nothing is promised
+        rec.hit(match &got {
+            Ok(r) if BigInt::from(adj_i(*r)) == round_int(v, m) - int => "unspecified:|num|=|den|:answers-like-the-definition(not judged)",
+            Ok(_) => "unspecified:|num|=|den|:answers-otherwise(not judged)",
+            Err(_) => "unspecified:|num|=|den|:panics(not judged)",
+        });
+        return;
+    }
+    let want = (round_int(v, m) - int).to_i32().unwrap();
+    let cls = || format!("{},{},{},den{}", uni, m.name(), if n.is_zero() { "zero-fraction" } else { half_name(half) }, if d.is_negative() { "<0" } else { ">0" });
+    rec.hit(mode_adj_cls!("prim:", m, want));
+    if half == Ordering::Equal {
+        rec.hit(mode_cls!("prim:", m, ":tie"));
+    }
+    match got {
+        Ok(r) => {
+            if adj_i(r) != want {
+                rec.fail(format!("{}|Round::round_ratio|wrong-value|{}", P, cls()), case(), format!("{:?}", r), adj_name(want));
+            }
+        }
+        Err(pm) => rec.fail(format!("{}|Round::round_ratio|{}|{}", P, panic_kind(&pm), cls()), case(), format!("panic: {}", pm), adj_name(want)),
+    }
+}
+
+fn prim_ratio_case(rec: &mut Rec, int: &BigInt, n: &BigInt, d: &BigInt, uni: &str) {
+    let q = Rat::new(n.clone(), d.clone());
+    let v = Rat::int(int.clone()).add(&q);
+    let qa = q.abs();
+    let half = cmp_half(&qa);
+    prim_ratio_one::<mode::Zero>(rec, int, n, d, &v, half, uni);
+    prim_ratio_one::<mode::Away>(rec, int, n, d, &v, half, uni);
+    prim_ratio_one::<mode::Up>(rec, int, n, d, &v, half, uni);
+    prim_ratio_one::<mode::Down>(rec, int, n, d, &v, half, uni);
+    prim_ratio_one::<mode::HalfEven>(rec, int, n, d, &v, half, uni);
+    prim_ratio_one::<mode::HalfAway>(rec, int, n, d, &v, half, uni);
+    rec.hit(if d.is_negative() { "prim:den-negative" } else { "prim:den-positive" });
+    rec.hit(match (int.sign(), q.sgn()) {
+        (num_bigint::Sign::NoSign, _) => "prim:int-zero",
+        (_, 0) => "prim:fraction-zero",
+        (num_bigint::Sign::Plus, 1) | (num_bigint::Sign::Minus, -1) => "prim:same-signs",
+        _ => "prim:opposite-signs",
+    });
+    if !n.is_zero() {
+        rec.nontrivial();
+    }
+}
+
+fn prim_ratio_closed(ctx: &mut Ctx, imax: i64, dmax: i64) {
+    // (int, den in -dmax..=dmax without 0, num in -|den|..=|den|): enumerate num over -dmax..=dmax and skip |num| > |den|
+    let (ni, nd, nn) = ((2 * imax + 1) as u64, (2 * dmax) as u64, (2 * dmax + 1) as u64);
+    ctx.sweep("prim.ratio", ni * nd * nn, |i, rec| {
+        let [ii, id, inn] = unflatten(i, [ni, nd, nn]);
+        let int = zigzag(ii);
+        let den = zigzag(id + 1); // 1, -1, 2, -2, ...
+        let nu = zigzag(inn);
+        if nu.abs() > den.abs() {
+            rec.hit("skipped:|num|>|den|(outside the documented domain)");
+            return;
+        }
+        prim_ratio_case(rec, &BigInt::from(int), &BigInt::from(nu), &BigInt::from(den), "closed");
+        rec.sample(|| format!("round_ratio({}, {}, {}) in six modes", int, nu, den));
+    });
+    let mut req = prim_required(true);
+    req.extend(["prim:den-negative", "prim:den-positive"]);
+    ctx.require_classes("prim.ratio", &req);
+    ctx.bound("prim.ratio", serde_json::json!({"int": format!("-{}..={}", imax, imax), "den": format!("+-1..+-{}", dmax), "num": "|num| <= |den| (|num| = |den| counted as unspecified)"}));
+}
+
+fn prim_ratio_shape(ctx: &mut Ctx) {
+    let quick = ctx.quick();
+    let lens: Vec<usize> = if quick { vec![1, 2, 3, 5] } else { vec![1, 2, 3, 4, 5, 33, 66] };
+    let pats: Vec<&'static str> = vec!["ones", "top1", "top1p1", "alt", "lcgA", "lcgSeed"];
+    let dens: Vec<BigInt> = shapes(&lens, &pats, ctx.seed).into_iter().map(|s| BigInt::from(s.v)).filter(|d| d > &BigInt::one()).collect();
+    let mut ints: Vec<BigInt> = vec![];
+    for i in shape_ints(10) {
+        if !i.is_zero() {
+            ints.push(-i.clone());
+        }
+        ints.push(i);
+    }
+    const NR: u64 = 9; // 0, the <= 7 points of around_half, and |den| itself (unspecified)
+    let (nd, ni) = (dens.len() as u64, ints.len() as u64);
+    ctx.sweep("prim.ratio.shape", nd * 2 * NR * 2 * ni, |i, rec| {
+        let [id, ids, ir, irs, ii] = unflatten(i, [nd, 2, NR, 2, ni]);
+        let d = &dens[id];
+        let mut rs = around_half(d);
+        rs.insert(0, BigInt::zero());
+        rs.push(d.clone());
+        if ir >= rs.len() {
+            rec.hit("skipped:fewer-numerators-for-a-small-denominator");
+            return;
+        }
+        if irs == 1 && rs[ir].is_zero() {
+            rec.hit("skipped:minus-zero");
+            return;
+        }
+        let den = if ids == 1 { -d.clone() } else { d.clone() };
+        let nu = if irs == 1 { -rs[ir].clone() } else { rs[ir].clone() };
+        prim_ratio_case(rec, &ints[ii], &nu, &den, "shape");
+        rec.hit(size_class(word_len(d.magnitude())));
+        rec.sample(|| format!("round_ratio({}, {}, {}) in six modes", num(&ints[ii]), num(&nu), num(&den)));
+    });
+    let mut req = prim_required(true);
+    req.extend(["prim:den-negative", "prim:den-positive", "w1", "w2", "w3-24"]);
+    ctx.require_classes("prim.ratio.shape", &req);
+}
+
+// ---------------------------------------------------------------------------------------------
+
+fn self_check(ctx: &mut Ctx) {
+    let mut bad: Vec<String> = vec![];
+    // 1. BigInt definitions vs the search-style definitions on machine integers
+    for n in -60i64..=60 {
+        for d in 1i64..=12 {
+            let x = Rat::new(BigInt::from(n), BigInt::from(d));
+            for m in MODES {
+                let a = round_int(&x, m);
+                let b = round_int_search(n, d, m);
+                if a != BigInt::from(b) {
+                    bad.push(format!("round_int({}/{}, {}) = {} but search says {}", n, d, m.name(), a, b));
+                }
+            }
+            if x.trunc() != BigInt::from(n / d) || x.floor() != BigInt::from(n.div_euclid(d)) || x.ceil() != BigInt::from(-((-n).div_euclid(d))) {
+                bad.push(format!("trunc/floor/ceil of {}/{}", n, d));
+            }
+        }
+    }
+    // 2. hand-computed rows (documentation examples and textbook cases)
+    let r = |n: i64, d: i64| Rat::new(BigInt::from(n), BigInt::from(d));
+    let rows: [(Rat, Mode, i64); 14] = [
+        (r(5, 2), Mode::HalfEven, 2), (r(7, 2), Mode::HalfEven, 4), (r(-5, 2), Mode::HalfEven, -2), (r(5, 2), Mode::HalfAway, 3), (r(-5, 2), Mode::HalfAway, -3),
+        (r(-1, 2), Mode::HalfAway, -1), (r(1, 2), Mode::HalfEven, 0), (r(99, 10000), Mode::HalfAway, 0), (r(99, 10000), Mode::Away, 1), (r(-99, 10000), Mode::Up, 0),
+        (r(-99, 10000), Mode::Down, -1), (r(-7, 4), Mode::Zero, -1), (r(-7, 4), Mode::Away, -2), (r(1234, 1000), Mode::Zero, 1),
+    ];
+    for (x, m, w) in rows.iter() {
+        if round_int(x, *m) != BigInt::from(*w) {
+            bad.push(format!("round_int({}, {}) != {}", x.show(), m.name(), w));
+        }
+    }
+    // 2.345 -> 3 digits (doc example of with_precision: HalfAway gives 2.35, AddOne)
+    let x = r(2345, 1000);
+    let (v, a, h) = round_digits(&x, 10, 3, Mode::HalfAway);
+    if v != r(235, 100) || a != 1 || h != Ordering::Equal {
+        bad.push("round_digits(2.345, 3, HalfAway)".into());
+    }
+    let (v, a, _) = round_digits(&x, 10, 3, Mode::HalfEven);
+    if v != r(234, 100) || a != 0 {
+        bad.push("round_digits(2.345, 3, HalfEven)".into());
+    }
+    let (v, a, _) = round_digits(&x.neg(), 10, 3, Mode::Away);
+    if v != r(-235, 100) || a != -1 {
+        bad.push("round_digits(-2.345, 3, Away)".into());
+    }
+    let (v, a, _) = round_digits(&r(9996, 1000), 10, 3, Mode::HalfEven); // carry: 9.996 -> 10.0
+    if v != r(10, 1) || a != 1 {
+        bad.push("round_digits(9.996, 3, HalfEven)".into());
+    }
+    // the value classes
+    let z = fv::<10>(&BigInt::from(9900), -6); // 0.0099 after normalisation
+    if z.s != BigInt::from(99) || z.e != -4 || z.zone != "frac:k=-2" || !z.rd.is_zero() || !z.tr.is_zero() || z.ce != BigInt::one() {
+        bad.push("fv(0.0099)".into());
+    }
+    for b in bad.iter().take(5) {
+        ctx.machinery(format!("reference self-check failed: {}", b));
+    }
+}
 
 pub fn run(ctx: &mut Ctx) {
-    ctx.machinery("check C10 is not built yet");
+    ctx.rule = "floats: every distinct value s*B^e of the closed universes F(B,P,E) = { |s| < B^P, |e| <= E } and of a constructed family ((i*B^k + f)*B^-k and f*B^(-k-z): i from small/word-boundary integers, f next to 0, next to B^k and around B^k/2, k up to 65 (200 thorough) fraction digits, z = 1..4 leading zeros), each wrapped as FBig with precision digits, digits+1, digits+3 and unlimited (plus digits-1 in builds without debug assertions), in all six rounding modes, through trunc, floor, ceil, round, fract, split_at_point, FBig::to_int, Repr::to_int and with_precision(t) for every target t in 0..=P+1 (constructed family: t around the digit count, around the radix point and 0,1,2,3,19,20,21); rationals: every n/d of Q(N,D) and constructed (q*d + r)/d with multi-word q, d and r next to 0, d/2, d, on RBig and on Relaxed with common factors, through trunc, floor, ceil, round, fract, split_at_point; primitives: every (int, fract, k) and (int, num, den) triple of the stated ranges plus constructed multi-word triples, six modes. Every result is compared with the definition evaluated on exact rationals. non-trivial = value not zero (floats), value not in {-1,0,1} (rationals), non-zero fraction (primitives)".into();
+    ctx.assume("reference = the definitions (trunc, floor, ceil, nearest with ties away / to even, away, towards zero) evaluated on exact num_bigint fractions; cross-checked at start against a search-style statement of the same definitions on machine integers and against hand-computed rows");
+    ctx.assume("FBig::to_int / with_precision: Inexact(v, adj) is judged strictly: v is the integer (p-digit value) the mode names and adj = v - truncated value (in units of the last kept digit), Exact iff nothing had to be dropped");
+    ctx.assume("with_precision(t) must round whenever t != 0 and the value has more than t digits, also when the source precision is unlimited (0)");
+    ctx.assume("not judged (only counted): the precision carried by trunc/floor/ceil/round/fract results; round_ratio with |num| = |den| (documented assumption |num/den| < 1)");
+    if cfg!(debug_assertions) {
+        ctx.assume("over-long operands (digits > precision) cannot be built through the public API in this build (FBig::from_repr asserts); they are enumerated only in the `rel` build");
+    }
+    self_check(ctx);
+    let quick = ctx.quick();
+
+    // floats, closed universes
+    if quick {
+        float_closed::<2>(ctx, 5, 9);
+        float_closed::<10>(ctx, 3, 6);
+        float_closed::<3>(ctx, 2, 5);
+        float_closed::<16>(ctx, 2, 4);
+    } else {
+        float_closed::<2>(ctx, 8, 12);
+        float_closed::<10>(ctx, 4, 7);
+        float_closed::<3>(ctx, 4, 7);
+        float_closed::<16>(ctx, 2, 5);
+        float_closed::<36>(ctx, 2, 4);
+        float_closed::<7>(ctx, 3, 5);
+    }
+    // floats, constructed values
+    float_shape::<2>(ctx);
+    float_shape::<10>(ctx);
+    if !quick {
+        float_shape::<3>(ctx);
+        float_shape::<16>(ctx);
+        float_shape::<36>(ctx);
+    }
+    // rationals
+    if quick {
+        rat_closed(ctx, 60, 16);
+    } else {
+        rat_closed(ctx, 600, 64);
+    }
+    rat_shape(ctx);
+    // primitives
+    let kmax = 3;
+    prim_fract_closed::<2>(ctx, 6, if quick { 5 } else { 10 });
+    prim_fract_closed::<3>(ctx, 6, if quick { kmax } else { 6 });
+    prim_fract_closed::<10>(ctx, 6, if quick { kmax } else { 4 });
+    prim_fract_closed::<16>(ctx, 6, kmax);
+    if !quick {
+        prim_fract_closed::<7>(ctx, 6, 4);
+        prim_fract_closed::<36>(ctx, 6, 3);
+    }
+    prim_fract_shape::<2>(ctx);
+    prim_fract_shape::<10>(ctx);
+    if !quick {
+        prim_fract_shape::<3>(ctx);
+        prim_fract_shape::<16>(ctx);
+        prim_fract_shape::<36>(ctx);
+    }
+    prim_ratio_closed(ctx, 6, if quick { 12 } else { 40 });
+    prim_ratio_shape(ctx);
+    ctx.bound("bases", serde_json::json!(if quick { vec![2, 10, 3, 16] } else { vec![2, 10, 3, 16, 36, 7] }));
+    ctx.bound("modes", serde_json::json!(MODES.iter().map(|m| m.name()).collect::<Vec<_>>()));
 }
